@@ -327,6 +327,7 @@ func runC15(c *eng.Ctx) {
 	RunOptionalRetry(c, cr.next)
 	RunBuildCleanupFails(c, cr.next)
 	RunOddResultLists(c, cr.next)
+	RunBuildTimeLimit(c, cr.next)
 	nSpecs := c.Pick(300, 6000)
 	for k := 0; k < nSpecs; k++ {
 		idx, mine := cr.next()
